@@ -163,6 +163,24 @@ func genRedefScenario(r *rng) (*scenario, *filterSpec, *filterSpec) {
 		sc.Opts = append(sc.Opts, sc.supplyFor(r, c, d, &vid, true))
 		sc.Opts[len(sc.Opts)-1].Ty = d.Ty
 	}
+	// one scenario in eight: a value is supplied under the name of a parameter but with another type, next to a
+	// converter from that type. The parameter stays an input of the redefined function (outside C08's premise of one
+	// type per name), and the value it is then called with must win over the option given to Redefine.
+	if !sc.Subs && !forced && r.chance(1, 8) {
+		for _, l := range tIns {
+			if l.Name == "" || l.Ty >= tyL0 {
+				continue
+			}
+			t2 := (l.Ty + 1 + r.intn(5)) % 6
+			vid++
+			sc.Opts = append(sc.Opts, optSpecC{Kind: "named", Name: l.Name, Ty: t2, Vid: vid})
+			f := c.newConv(r, sc, []lab{{Ty: l.Ty}}, []lab{{Ty: t2}})
+			f.Script, f.Once = "ok", false
+			convIDs = append(convIDs, f.ID)
+			sc.Collide = true
+			break
+		}
+	}
 	for _, id := range convIDs {
 		kind := "conv"
 		if sc.Funcs[id].Once || sc.Funcs[id].Form == "built" || r.chance(1, 2) {
@@ -315,7 +333,7 @@ func genRedef(w *bufio.Writer, r *rng, id int) {
 		fmt.Fprintf(w, "scn redef %d builderr\nbuilderr %s\nend\n", id, strings.ReplaceAll(err.Error(), "\n", " "))
 		return
 	}
-	sc.header(w, "redef", id, fmt.Sprintf("fin=%s finnest=%d fout=%s subs=%v", fin.String(), nestOf(fin), fout.String(), sc.Subs))
+	sc.header(w, "redef", id, fmt.Sprintf("fin=%s finnest=%d fout=%s subs=%v", fin.String(), nestOf(fin), fout.String(), sc.Subs || sc.Collide))
 	var extraFilters []am.Arg
 	if fin != nil {
 		extraFilters = append(extraFilters, am.FilterInput(fin.mk()))
@@ -399,7 +417,7 @@ func genRedef(w *bufio.Writer, r *rng, id int) {
 			burn = false // a memoised result of the untraced call would be invisible to the replay
 		}
 	}
-	sc2.header(w, "call", id*10+7, fmt.Sprintf("fam=redefcall burn=%v", burn))
+	sc2.header(w, "call", id*10+7, fmt.Sprintf("fam=redefcall burn=%v collide=%v", burn, sc.Collide))
 	fmt.Fprintln(w, "dump skip")
 	for rep := 0; rep < 1; rep++ {
 		fmt.Fprintf(w, "run %d\n", rep)
@@ -623,6 +641,7 @@ func genHist(w *bufio.Writer, r *rng, id int) {
 		}
 	}
 	n := 2 + r.intn(5)
+	var lastNF *am.Func
 	for k := 0; k < n; k++ {
 		switch x := r.intn(12); {
 		case x < 3:
@@ -645,7 +664,7 @@ func genHist(w *bufio.Writer, r *rng, id int) {
 			for _, f := range sc.Funcs {
 				before += f.execs
 			}
-			lines, _ := sc.redefineOnce(fin, nil)
+			lines, nf := sc.redefineOnce(fin, nil)
 			for _, l := range lines {
 				fmt.Fprintln(w, l)
 			}
@@ -654,6 +673,9 @@ func genHist(w *bufio.Writer, r *rng, id int) {
 				after += f.execs
 			}
 			fmt.Fprintf(w, "rdexecs %d\n", after-before)
+			if nf != nil && fin == nil && nf.Input() != nil && len(nf.Input().Values()) == 0 {
+				lastNF = nf // a second handle on the target: calling it is calling the target with these options
+			}
 		case x < 5 && len(direct) > 0:
 			fid := direct[r.intn(len(direct))]
 			fmt.Fprintf(w, "run %d direct\nhop target=%d omit=\n", k, fid)
@@ -671,12 +693,43 @@ func genHist(w *bufio.Writer, r *rng, id int) {
 		default:
 			fmt.Fprintf(w, "run %d call\nhop target=0 omit=\n", k)
 			w.Flush()
+			if lastNF != nil && r.chance(1, 2) {
+				// the same call made through the redefined function (run-once state is shared between the handles)
+				for _, l := range sc.callThrough(lastNF) {
+					fmt.Fprintln(w, l)
+				}
+				break
+			}
 			for _, l := range sc.callOnce() {
 				fmt.Fprintln(w, l)
 			}
 		}
 	}
 	fmt.Fprintf(w, "end\n")
+}
+
+// callThrough calls a redefined function that declares no inputs: its inner call of the target is traced through
+// the logger given to Redefine and rendered like a call of the target.
+func (sc *scenario) callThrough(nf *am.Func) []string {
+	sc.events, sc.pops = nil, nil
+	am.VerifSetPopHook(func(h interface{}) { sc.pops = append(sc.pops, sc.hashName(h)) })
+	defer am.VerifSetPopHook(nil)
+	var res am.Result
+	var pan interface{}
+	func() {
+		defer func() { pan = recover() }()
+		res = nf.Call()
+	}()
+	lines := append([]string(nil), sc.events...)
+	switch {
+	case pan != nil:
+		lines = append(lines, "res panic "+classifyPanic(pan))
+	case res.Err() != nil:
+		lines = append(lines, "res err "+sc.classifyErr(res.Err()))
+	default:
+		lines = append(lines, "res ok "+strings.Join(renderOuts(sc.Funcs[0], res), ","))
+	}
+	return lines
 }
 
 // ---------------------------------------------------------------- C10: targets outside the scenario type universe
